@@ -88,6 +88,9 @@ def run_haplotagphase(
                     out_file=output,
                     tag=tag,
                     mav=mav,
+                    # records that are not phased here (multiallelic sites, duplicate
+                    # positions) keep the phase they have in the input
+                    remove_existing_phasing=False,
                 )
             )
         except (OSError, VcfError) as e:
